@@ -116,6 +116,26 @@ def typeHintOk (kv : List (Val × Val)) (name : String) : Bool :=
   | some v => v.strEq name
   | none => true
 
+/-- a by-name branch stands for its definition: `candidate = named_schemas[record_type]` -/
+def unwrapRef (env : Env) (s : Schema) : Schema :=
+  match s with
+  | .ref n => (env.get? n).getD s
+  | s => s
+
+def dictKeys (kv : List (Val × Val)) : List String :=
+  kv.filterMap fun (k, _) => match k with | .str s => some s | _ => none
+
+/-- `len(candidate_fields & datum_fields)` -/
+def sharedFields (fs : List Field) (kv : List (Val × Val)) : Nat :=
+  let keys := dictKeys kv
+  ((fs.map Field.name).eraseDups.filter keys.contains).length
+
+/-- `len(candidate_fields & set(datum))` for a Python datum -/
+def sharedCount (fs : List Field) (v : Val) : Int :=
+  match v with
+  | .dict kv => (sharedFields fs kv : Nat)
+  | _ => 0
+
 def AVRO_TYPE_NAMES : List String :=
   ["boolean", "bytes", "double", "float", "int", "long", "null", "string", "fixed", "enum",
    "record", "error", "array", "map", "union", "request", "error_union"]
